@@ -18,7 +18,7 @@ CLAIMS = {
     technique="symbolic-scalar concolic execution + term identity / SMT (z3) per path; native f64 replay",
     design_ref="DESIGN.md §4 C03"),
  "C12": dict(
-    text="Partial. The real logistic fits (binary and multinomial, argmin L-BFGS on f64) are executed for every label vector over a 3-4 letter alphabet (labels are symbolic class labels; the solver enumerates all feasible paths of label coding, error handling and decisions), on four concrete feature families (1-2 columns, centred / offset / badly scaled), alpha in {0, 1/8, 1, 8}, with and without intercept. On every path: error iff the class count is wrong, reported class set == training labels, probabilities in [0,1] (rows summing to one), predicted class == what probability and threshold / arg-max imply, and the gradient of the documented penalised negative log-likelihood recomputed from first principles vanishes (<= 1e-3). Features are not symbolic (linfa-logistic is tied to primitive floats), Tweedie GLM and probabilities at extreme inputs are outside the claim.",
+    text="Partial. The real logistic fits (binary and multinomial, argmin L-BFGS on f64) are executed for every label vector over a 3-4 letter alphabet (labels are symbolic class labels; the solver enumerates all feasible paths of label coding, error handling and decisions), on four concrete feature families (1-2 columns, centred / offset / badly scaled), alpha in {0, 1/8, 1, 8}, with and without intercept. On every path: error iff the class count is wrong, reported class set == training labels, probabilities in [0,1] (rows summing to one), predicted class == what probability and threshold / arg-max imply, and the gradient of the documented penalised negative log-likelihood recomputed from first principles vanishes (<= 1e-3). Tweedie GLM: all configurations power {0,1,1.5,2,3} x link x intercept x alpha x three data families are enumerated by the solver on concrete data (support errors, predictions in the link's range, stationarity of 1/2(deviance+alpha|w|^2) by central differences of the textbook deviance; identity/logit links with power 0 only). Features are not symbolic (both crates are tied to primitive floats); probabilities at extreme inputs are outside the claim.",
     technique="concolic enumeration of label vectors (symbolic labels, z3) over the real fit; per-path numeric stationarity oracle; native replay",
     design_ref="DESIGN.md §4 C12"),
  "C01": dict(
